@@ -27,7 +27,7 @@ cmdtxt = meta.get("demo_cmd", "") + "\n" + head
 m = re.search(r"cp\s+\S+\s+(\S+_test\.go)", cmdtxt) or re.search(r"((?:/tmp/seed-\w+/)?(?:[a-z]+/)+\w+_test\.go)", cmdtxt)
 dest = m.group(1) if m else None
 if dest:
-    dest = dest.replace(wt + "/", "")
+    dest = dest.replace(wt + "/", "").replace("<worktree>/", "").replace("$WT/", "").replace("${WT}/", "")
     if dest.startswith("/"):
         dest = None
 if not dest:
@@ -52,7 +52,8 @@ c, o = sh("go build ./... && go test -vet=off -count=1 ./...", wt, 1500)
 res["suite_passes_with_patch"] = (c == 0)
 if c != 0: res["suite_output"] = o[-600:]
 c, o = run_demo()
-res["demo_fails_with_patch"] = (c != 0)
+res["demo_fails_with_patch"] = (c != 0) and ("FAIL" in o) and ("--- FAIL" in o or "panic" in o or "[build failed]" not in o)
+if not res["demo_fails_with_patch"]: res["demo_patched_output"] = o[-600:]
 sh("git checkout -- . && git clean -fdq", wt)
 c, o = run_demo()
 res["demo_passes_without_patch"] = (c == 0)
